@@ -178,6 +178,9 @@ func (c *Ctx) rulePure(short string) bool {
 	for _, r := range c.activeRules {
 		if r.Pure && matchAny(r.Callees, short) && !matchAny(r.Except, short) {
 			c.definesUsed["callrule "+r.Name+": calls to "+short+" are assumed not to change the modelled heap"] = true
+			if len(r.Requires) == 0 && len(r.Ensures) == 0 {
+				c.ruleHits[r.Name]++
+			}
 			return true
 		}
 	}
